@@ -16,6 +16,8 @@ def tensor_pre(ctx, binary):
     cases, n = ctx.gen("tensor", "TensorGen", g, "cases.ndjson", stage="gen", workers=8, timeout=ctx.q(900, 5000), coverage=False)
     v = ctx.replay(binary, "tensor", cases)
     ctx.distinct_nontrivial += v["extra"].get("nontrivial_cases", 0)
+    # the same cases on the optimised build (no overflow checks: index arithmetic wraps instead of panicking)
+    ctx.replay(ctx.build(release=True), "tensor", cases, stage="replay-release-build")
 
 
 def fft_pre(ctx, binary):
@@ -41,6 +43,7 @@ def fft_pre(ctx, binary):
 
 SPECS = {
     "mint": {
+        "also_release": True,
         "module": "MintTrace",
         "rule": ("I->S: (i) complete tables of +,-,*,/ (value and assigning forms), neg, inv, pow (d <= 2M), new (|v| <= 3M) and == for "
                  "EVERY modulus 2..40 (thorough 2..48), each entry checked by TLC against the definition on native integers; (ii) single "
@@ -56,13 +59,14 @@ SPECS = {
         ],
     },
     "gcd": {
+        "also_release": True,
         "module": "GcdTrace",
         "rule": ("I->S: gcd and lcm of ALL pairs in -40..40 (0..40 unsigned) for each of the 12 integer types; egcd(a,b,c) for the whole "
                  "cube |a|,|b|,|c| <= 12 (i64; smaller cubes for i32, i128), (a,b) != (0,0); crt for ALL moduli 1..18 (thorough 24) with "
                  "all reduced residues -- every entry checked by TLC against the tabulated definition (greatest common divisor by "
                  "divisibility, Some iff gcd | c and a*x+b*y=c, unique z in [0,lcm)); plus sampled large operands (|.| up to 2^20 for "
                  "egcd/crt, up to 2^60 / 2^100 for gcd/lcm on i64, u64, i128) checked on BigInt with witnesses (cofactors and a Bezout "
-                 "pair prove g is the gcd; c = g*k + rem with 0 < rem < g proves a None); plus, for each of the 12 types, gcd of all pairs "
+                 "pair prove g is the gcd; c = g*k + rem with 0 < rem < g proves a None); recorded from both build profiles; plus, for each of the 12 types, gcd of all pairs "
                  "from {MAX, MAX-1, MAX-2, MAX/2, MAX/2+1, MAX/2+2 (= 2^(k-1) +- 1 for unsigned), 2/3, 3/4, 4/5 of MAX, 0, 1, 2, 3, 6} in "
                  "all sign patterns and lcm wherever it fits (u128 above 2^127 with evident witnesses), run with overflow checks. "
                  "Non-trivial = every table entry / big event."),
@@ -73,12 +77,14 @@ SPECS = {
         ],
     },
     "rational": {
+        "also_release": True,
         "module": "RationalTrace",
         "rule": ("I->S: for every a/b, c/d with |.| <= 5 (thorough 6) and non-zero denominators of either sign, over i64 (smaller box for "
                  "i32, i128): new, +, -, *, / in by-value, by-reference and assigning form, cmp, ==, <, <=, hash equality; for every a/b "
                  "with |a| <= 3k: neg, floor, ceil -- every result checked by TLC against the cross-multiplication definitions and "
                  "canonical form (positive denominator, coprime); plus sampled operands up to 2^30 (i64), 2^14 (i32), 2^60 (i128) with "
-                 "shared factors, checked on BigInt with a Bezout witness for coprimality. Non-trivial = every row / big event."),
+                 "shared factors, checked on BigInt with a Bezout witness for coprimality. Recorded from the build with overflow checks and "
+                 "from the optimised build. Non-trivial = every row / big event."),
         "assumptions": [
             "zero denominators and zero divisors are outside the quantifier; magnitudes stay below the overflow threshold of the type",
             "coprimality witnesses come from the harness's own extended Euclid; the specification verifies s*n + t*d = 1",
@@ -91,7 +97,8 @@ SPECS = {
         "exhaustive": True,
         "rule": ("I->S: Sieve::new(N) for EVERY N in 0..2000 (thorough 0..4000): the complete min_prime and is_prime tables and the prime "
                  "list compared by TLC with the tabulated arithmetic definitions (least divisor >= 2 by trial division); factorize(n) "
-                 "through the real iterator for all n <= N at every 97th limit and for the top three n at every limit; N = 1e6 "
+                 "through the real iterator for all n <= N at every 97th limit and for the top three n at every limit; every 61st (thorough 7th) "
+                 "limit up to 140000 with sampled entries and the end of the prime list; N = 1e6, 2e6 "
                  "(thorough also 1e7): 2.6k-6k sampled n (primes, prime squares +-1, products of two large primes, the last 100 entries, "
                  "random) checked by trial division with the tabulated primes, pi(N) and sampled consecutive prime pairs (no prime "
                  "between). Recorded twice: from the optimised build and from a build with overflow checks. Non-trivial = every table entry."),
@@ -101,6 +108,7 @@ SPECS = {
         ],
     },
     "iter": {
+        "also_release": True,
         "module": "IterTrace",
         "pre": iter_pre,
         "rule": ("S->I: TLC enumerates every sequence over a 3-letter alphabet up to length 6 (thorough 7) and every arrangement of up to 6 "
@@ -110,7 +118,10 @@ SPECS = {
                  "replayed on next_permutation (three element types), iter_permutations and the neighbour iterators. I->S: the complete "
                  "output of iter_submasks / iter_supermasks for all 256 masks of u8 and i8, all 16-bit masks with <= 4 (thorough 6) free "
                  "bits, and structured/random masks of the 32/64/128-bit and pointer-sized types with <= 8 (10) free bits, checked by TLC "
-                 "(start, strict monotonicity as unsigned, sub/supermask of x, end value, length 2^free). Non-trivial = every element."),
+                 "(start, strict monotonicity as unsigned, sub/supermask of x, end value, length 2^free); next_permutation on 400 (3000) "
+                 "sequences of length 8..47 over 1..4 letters (long non-increasing tails that repeat the pivot's value) against the "
+                 "constructive definition; the neighbour iterators on implicit grids based at 2^31-3 .. isize::MAX-9 (coordinates relative to "
+                 "the base). Both build profiles. Non-trivial = every element."),
         "assumptions": [
             "16-bit masks are covered up to a popcount bound (3^16 elements are beyond TLC's throughput); wider types sampled (seeded)",
         ],
@@ -121,7 +132,9 @@ SPECS = {
         "exhaustive": True,
         "rule": ("S->I: TLC enumerates EVERY shape of rank 1..4 with extents 1..4 (thorough 1..5; 340 / 780 shapes) and emits per shape every "
                  "valid multi-index with its row-major offset (Flat checked by TLC to be a bijection onto 0..count-1), every index out of "
-                 "range in exactly one dimension by 0..2 (flagged when its flattened offset is still inside the storage), zero-extent and "
+                 "range in exactly one dimension by 0..2 (flagged when its flattened offset is still inside the storage) and, per dimension, components "
+                 "far beyond the extent (usize::MAX, 2^63 +- extent, 2^62, 2^32, and values whose product with the stride wraps around 2^64 into the "
+                 "storage), replayed on the build with overflow checks and on the optimised build, zero-extent and "
                  "length-mismatch constructor calls, every other shape of the same rank and element count, and the text rendering; the "
                  "harness checks from_vec / from_slice / new+index_mut, get_index, iter, Index and IndexMut panics, constructor rejections, "
                  "equality and != as its negation, Writable output and Tensor::read. I->S: IO round trips of random shapes (extents <= 5) and values through the "
@@ -156,8 +169,9 @@ SPECS = {
                  "magnitude 1000), nearly axis-parallel lines (multiples of 2^-20; normalised small coefficient between 1e-9 and 1e-6) crossed "
                  "by ordinary lines and circles in either argument order, and constructed outer/inner tangencies, tangent lines and 2^-29..2^-26 shallow overlaps at arbitrary "
                  "dyadic positions. The specification decides the exact kind by comparing squared integers (BigInt at scale 2^-30) and "
-                 "demands it when the configuration is exactly tangent or >= 2^-20 away from a boundary between kinds (not judged in "
-                 "between: a band much wider than the library's 1e-9), and checks EVERY returned point against both primitives with "
+                 "demands it when the configuration is exactly tangent or >= 2^-20 (two circles) resp. 2^-26 (circle and line, where the "
+                 "library's measure is the plain distance) away from a boundary between kinds (not judged in "
+                 "between: bands wider than the library's 1e-9); large circles against lines 1e-7 inside / outside tangency are constructed, and checks EVERY returned point against both primitives with "
                  "tolerance 1e-7. Non-trivial = every configuration."),
         "assumptions": [
             "all generated coordinates are dyadic rationals, hence exact both as f64 and as integers of the specification; non-dyadic inputs "
@@ -224,11 +238,14 @@ def run(ctx, comp):
                  keyfn=lambda m: key(comp, m), heap=sp.get("heap", "12g"))
     ctx.extra["record_info"] = info
     ctx.distinct_nontrivial += info.get("nontrivial", info.get("events", 0))
-    if sp.get("also_debug"):
-        # the same recording from a build with overflow checks and debug assertions (what `cargo test` runs)
-        dbg = ctx.build(release=False)
-        trace2, info2 = ctx.record(dbg, comp, stage="record-debug-build", name="trace-record-debug.ndjson")
-        ctx.validate(comp, sp["module"], ctx.cfg(comp, sp["module"] + ".cfg"), trace2, stage="validate-debug-build", runs=info2.get("runs", 1),
+    if sp.get("also_debug") or sp.get("also_release"):
+        # the same recording from the other build profile: with overflow checks and debug assertions (what `cargo test`
+        # runs) resp. optimised without them (what a contest submission runs)
+        other_release = bool(sp.get("also_release"))
+        tag = "release" if other_release else "debug"
+        other = ctx.build(release=other_release)
+        trace2, info2 = ctx.record(other, comp, stage="record-%s-build" % tag, name="trace-record-%s.ndjson" % tag)
+        ctx.validate(comp, sp["module"], ctx.cfg(comp, sp["module"] + ".cfg"), trace2, stage="validate-%s-build" % tag, runs=info2.get("runs", 1),
                      timeout=ctx.q(1200, 6000), keyfn=lambda m: key(comp, m), heap=sp.get("heap", "12g"))
     ctx.assumptions += ["TLC 1.8 evaluates the TLA+ specifications correctly"] + sp["assumptions"]
     if sp.get("exhaustive"):
